@@ -367,6 +367,45 @@ def run(world, rep, tier, only=None):
         rep.ob("C05.g", site(f_, "`%s` moves together with its twin#%d" % (T.pp(n_.ev["lhs"])[:30], _ordn(f_, n_))), ok,
                "`%s` has the same update of the other start field in the same block" % n_.text()[:40])
 
+    # ------------------------------------------------------------------ C05.i the index is written into the room it was measured against
+    # calculate_tree() decides from the number of leaf blocks whether their index entries fit the root (or one level of
+    # interior nodes) and then writes one entry per leaf.  The quantity compared with the capacity and the number of
+    # turns of the writing loop are the same number: one more turn than was measured writes an entry over the start of
+    # the first leaf (or over the root's checksum tail) - a file's directory entry is gone after a run that reported
+    # success.
+    ct = lib.fn("calculate_tree", "e2fsck/rehash.c")
+    n_lp = 0
+    for hb in sorted(natural_loops(ct)):
+        tc = loop_trip_count(ct, hb)
+        if tc is None:
+            continue
+        iv, trip = tc
+        tv = {k for k in trip if k != 1}
+        if not tv:
+            continue
+        # the capacity test that admits this loop: a controlling literal `L <= cap` / `L < cap` over the same variable
+        for t, a_ in control_lits(ct, ct.block_end(hb)):
+            a0 = T.strip(a_)
+            if not (t is True and isinstance(a0, dict) and a0.get("k") == "b" and a0.get("o") in ("<=", "<")):
+                continue
+            lf = linear_form(a0.get("l"), ct)
+            if lf is None or not ({k for k in lf if k != 1} & tv) or iv in {k for k in lf if k != 1}:
+                continue
+            n_lp += 1
+            want = dict(trip)
+            if a0["o"] == "<":
+                want[1] = want.get(1, 0) + 1      # L < cap  <=>  L + 1 <= cap ... compared as  L <= cap - 1
+            same = {k: v for k, v in lf.items() if v != 0} == {k: v for k, v in (trip if a0["o"] == "<=" else
+                                                                                  {**trip, 1: trip.get(1, 0) + 1}).items() if v != 0}
+            rep.ob("C05.i", site(ct, "entries written = entries measured#%d" % n_lp), same,
+                   "loop at line %d makes %s turns; the capacity test in front of it measures %s" %
+                   (ct.block_end(hb).line, _fmt_lin(trip), _fmt_lin(lf)))
+    rep.floor("C05.i counting loops behind a capacity test in calculate_tree", n_lp, 2)
+
+
+def _fmt_lin(f):
+    return " + ".join(("%s" % v if k == 1 else ("%s" % k if v == 1 else "%d*%s" % (v, k))) for k, v in sorted(f.items(), key=lambda kv: str(kv[0])) if v != 0) or "0"
+
 
 def _chain_zero(n):
     """`a = b = 0` is reported as a store whose rhs is the inner assignment"""
